@@ -60,6 +60,23 @@ def json_norm(o):
 _BOOKKEEPING = ("build_config", "shared_object_id", "module", "registered_name")
 
 
+def _strip_object_names(o):
+  """Drops auto-generated Keras object names nested in a layer's config (an
+  inner model of Aggregation is renamed whenever it is constructed again);
+  names of tfl *Config objects (feature names!) are configuration and stay."""
+  if isinstance(o, dict):
+    out = {}
+    for k, v in o.items():
+      if (k == "config" and isinstance(v, dict) and isinstance(
+          o.get("class_name"), str) and not o["class_name"].endswith("Config")):
+        v = {kk: vv for kk, vv in v.items() if kk != "name"}
+      out[k] = _strip_object_names(v)
+    return out
+  if isinstance(o, list):
+    return [_strip_object_names(v) for v in o]
+  return o
+
+
 def _strip(o):
   if isinstance(o, dict):
     return {k: _strip(v) for k, v in o.items() if k not in _BOOKKEEPING}
@@ -116,7 +133,7 @@ class ModelWorld(engine.World):
       n_events = p.integer(3, 22 if tier == "thorough" else 14)
       kinds = [("step", 10.0)]
       for kind, w in (("fit", 0.6), ("finalize", 0.8), ("checkpoint", 1.2),
-                      ("crash", 1.0), ("reload", 0.6)):
+                      ("crash", 1.0), ("reload", 0.6), ("clone", 0.5)):
         if p.chance(0.6):
           kinds.append((kind, w * p.log10_uniform(-0.4, 0.4)))
       fmts = [f for f in ("memory", "weights_h5", "weights_v3", "weights_tf",
@@ -125,7 +142,8 @@ class ModelWorld(engine.World):
     else:
       n_events = p.integer(3, 16 if tier == "thorough" else 11)
       kinds = [("step", 5.0), ("checkpoint", 3.0), ("crash", 3.0)]
-      for kind, w in (("fit", 0.4), ("finalize", 0.5), ("reload", 0.6)):
+      for kind, w in (("fit", 0.4), ("finalize", 0.5), ("reload", 0.6),
+                      ("clone", 1.0)):
         if p.chance(0.5):
           kinds.append((kind, w))
       fmts = [f for f in FORMATS if p.chance(0.5)] or ["weights_h5"]
@@ -677,7 +695,7 @@ class ModelWorld(engine.World):
     out = []
     for layer in model._flatten_layers(include_self=False, recursive=True):  # pylint: disable=protected-access
       if type(layer).__module__.startswith("tensorflow_lattice"):
-        cfg = json_norm(layer.get_config())
+        cfg = _strip_object_names(json_norm(layer.get_config()))
         cfg.pop("name", None)
         out.append([type(layer).__name__, cfg])
     return out
@@ -860,6 +878,39 @@ class ModelWorld(engine.World):
       ctx.reach("second_hop_restore")
     self.restored_once = True
 
+  def _ev_clone(self, ev, ctx):
+    """keras.models.clone_model: every layer is rebuilt in memory with
+    cls.from_config(layer.get_config()) (no JSON hop), the weights are copied
+    over and training continues on the clone."""
+    keras = self.keras
+    es = rng_lib.Stream(ev["seed"], "clone")
+    for v in self.tvars:
+      common.remove_proxy(v)
+    img = {
+        "id": -1, "fmt": "clone",
+        "config": json_norm(self.model.get_config()),
+        "weights": [np.array(w) for w in self.model.get_weights()],
+        "var_meta": self._var_meta(self.model),
+        "layer_configs": self._layer_configs(self.model),
+        "layer_attrs": self._layer_attrs(self.model),
+        "reg_loss": self._reg_loss(self.model),
+        "ref": self._ref_state(),
+    }
+    img["probe_x"] = self._probe_for_image(es.sub("probe"))
+    with ctx.sut("call"):
+      img["probe_y"] = self._forward(img["probe_x"])
+    img["assert_ok"], _ = self._assert_status(self.model)
+    with ctx.sut("clone_model"):
+      with keras.utils.custom_object_scope(self._custom_objects()):
+        clone = keras.models.clone_model(self.model)
+      clone.set_weights(img["weights"])
+    self.model = clone
+    self.compiled = False
+    self._attach(fresh=False, ref=img["ref"])
+    self._pending_compare = (img, None)
+    ctx.fire("clone_model")
+    ctx.token("clone")
+
   def _ev_reload(self, ev, ctx):
     """Restores saved weights into the live model (no crash)."""
     alive = [im for im in self.images if im["id"] not in self.lost]
@@ -939,7 +990,7 @@ class ModelWorld(engine.World):
     if not common.all_finite(weights):
       self.stop_requested = True
       if ev["kind"] in ("finalize", "checkpoint", "crash", "reload",
-                        "construct"):
+                        "construct", "clone"):
         return [engine.Violation("nonfinite_weights", {"after": ev["kind"]})]
       ctx.count("guard:nonfinite_after_update")
       return []
